@@ -12,7 +12,7 @@ From Coq Require Import Ascii String List Bool Arith ZArith NArith.
 From PTBase Require Import Exn PyStr.
 From PTBase Require Import PyNum PyVal.
 From PTModel Require Import Fortran.
-From P Require Import ListingHistory HistoryFuel HistorySpec HistoryProofs HistoryRows LineCells HistoryValues.
+From P Require Import ListingHistory HistoryFuel HistorySpec HistoryProofs HistoryRows LineCells HistoryValues HistoryShape.
 Import ListNotations.
 Open Scope nat_scope.
 
@@ -231,3 +231,60 @@ Theorem example_reverse_key : exists tn m k i,
   lookup (m_keys m) (rev k) = None /\ 1 < length k /\ m_rev m = true.
 Proof. exact example_reverse. Qed.
 Print Assumptions example_reverse_key.
+
+(** ** the shape of the result: "for ANY selection of items ... for EACH item" (HistoryShape.v) *)
+(** for EVERY file, selection, short flag, state and fuel (zero included): when no item of the selection is a
+    valid specification (table specification naming no table, table the listing does not have, row name in
+    no table -- [convert] gives None), the call returns None at once and the reader is not touched at all:
+    not even rewound, the file cursor stays ([s] is returned whole, not only its observable part) *)
+Theorem history_no_valid_item_returns_none : forall fuel F ms sel short s,
+  (forall it, In it sel -> convert ms it = Ok None) -> history fuel F ms sel short s = Ok (HNone, s).
+Proof. exact no_valid_item. Qed.
+Print Assumptions history_no_valid_item_returns_none.
+
+(** ... and None comes back ONLY then (tables filed under the six names of ordered_selection), state whole *)
+Theorem history_none_only_without_valid_item : forall fuel F ms sel short s s', wf_metas ms = true ->
+  history fuel F ms sel short s = Ok (HNone, s') ->
+  s' = s /\ forall it, In it sel -> convert ms it = Ok None.
+Proof. exact none_only_invalid. Qed.
+Print Assumptions history_none_only_without_valid_item.
+
+(** for EVERY well-formed file and covered selection: whenever the call returns, there is one entry per
+    selection item, in selection order, and the entry of the i-th item is fixed by that item alone -- its own
+    conversion and the stepping series of that (an item that is no valid specification gets the empty entry) *)
+Theorem history_one_entry_per_item : forall fuel F ms sel short s cs l s',
+  wf_file F = true -> wf_metas ms = true ->
+  mapM (convert ms) sel = Ok cs -> covers F short (selected_tables cs) = true ->
+  history fuel F ms sel short s = Ok (HSeries l, s') ->
+  length l = length sel /\
+  forall i it, nth_error sel i = Some it ->
+    exists oc, convert ms it = Ok oc /\ nth_error l i = Some (option_map (stepping_series F short) oc).
+Proof. exact result_shape. Qed.
+Print Assumptions history_one_entry_per_item.
+
+(** hence the series of an item does not depend on which other items are selected with it, on their number
+    (single tuple or list), on their order, on the fuel or on the reader's state at the call: two returning
+    calls on the same file give the same entry for the same item wherever it stands *)
+Theorem history_item_independent_of_selection :
+  forall f1 f2 F ms sel1 sel2 short s1 s2 cs1 cs2 l1 l2 s1' s2' i j it,
+  wf_file F = true -> wf_metas ms = true ->
+  mapM (convert ms) sel1 = Ok cs1 -> covers F short (selected_tables cs1) = true ->
+  mapM (convert ms) sel2 = Ok cs2 -> covers F short (selected_tables cs2) = true ->
+  history f1 F ms sel1 short s1 = Ok (HSeries l1, s1') ->
+  history f2 F ms sel2 short s2 = Ok (HSeries l2, s2') ->
+  nth_error sel1 i = Some it -> nth_error sel2 j = Some it ->
+  nth_error l1 i = nth_error l2 j.
+Proof. exact item_independent. Qed.
+Print Assumptions history_item_independent_of_selection.
+
+Theorem example_no_valid_item : (forall it, In it sel_invalid -> convert ms_aut it = Ok None) /\
+  history 0 F_aut ms_aut sel_invalid true s0 = Ok (HNone, s0).
+Proof. exact example_invalid. Qed.
+Print Assumptions example_no_valid_item.
+
+Theorem example_single_item_same_entry : exists l1 l3 s1 s3 e,
+  history (fuel_bound F_aut) F_aut ms_aut [it_e] true s0 = Ok (HSeries l1, s1) /\
+  history (fuel_bound F_aut) F_aut ms_aut sel_aut true s0 = Ok (HSeries l3, s3) /\
+  nth_error sel_aut 1 = Some it_e /\ nth_error l1 0 = Some (Some e) /\ nth_error l3 1 = Some (Some e).
+Proof. exact example_single. Qed.
+Print Assumptions example_single_item_same_entry.
